@@ -13,7 +13,7 @@ META = {
         "= (kind, ndim, sorted set of operations in the tree, dtypes of the leaves); "
         "non-trivial = tree with >= 2 operations (kinds 2,3: always)."
     ),
-    "cases": {"quick": 600, "thorough": 40000},
+    "cases": {"quick": 600, "thorough": 80000},
     "workers": {"quick": 8, "thorough": 16},
     "timeout": {"quick": 600, "thorough": 5400},
     "deciding": [
